@@ -208,3 +208,66 @@ def repo_fingerprint():
             h.update(open(os.path.join(root, f), "rb").read())
     h.update(open(os.path.join(REPO, "Cargo.toml"), "rb").read())
     return h.hexdigest()[:16]
+
+
+# ------------------------------------------------------------------------------------------
+# parallel trace validation: a trace is a sequence of independent programs / executions, each
+# starting with a reset record; split it at those boundaries and let several single-worker
+# TLC processes validate the pieces concurrently
+# ------------------------------------------------------------------------------------------
+def split_trace(trace, nparts, is_reset):
+    lines = open(trace).read().split("\n")
+    lines = [ln for ln in lines if ln]
+    starts = [i for i, ln in enumerate(lines) if is_reset(ln)]
+    if not starts or starts[0] != 0:
+        starts = [0] + starts
+    nparts = max(1, min(nparts, len(starts)))
+    per = (len(lines) + nparts - 1) // nparts
+    parts, cur, begin = [], 0, 0
+    bounds = []
+    for k in range(1, nparts):
+        target = k * per
+        # first start >= target
+        cand = [st for st in starts if st >= target]
+        if cand and cand[0] > begin and (not bounds or cand[0] > bounds[-1]):
+            bounds.append(cand[0])
+    bounds = [0] + bounds + [len(lines)]
+    files = []
+    for k in range(len(bounds) - 1):
+        if bounds[k + 1] <= bounds[k]:
+            continue
+        pth = "%s.part%d" % (trace, k)
+        with open(pth, "w") as f:
+            f.write("\n".join(lines[bounds[k]:bounds[k + 1]]) + "\n")
+        files.append((pth, bounds[k + 1] - bounds[k]))
+    return files
+
+
+def run_tlc_parallel(module, cfg, trace, tag, is_reset, nparts=8, timeout=3000, heap="3g"):
+    """returns (list of tuples from all parts, summed stats, total DONE count). Raises ToolError."""
+    import concurrent.futures
+    files = split_trace(trace, nparts, is_reset)
+
+    def one(i_f):
+        i, (pth, n) = i_f
+        rc, out = run_tlc(module, cfg, os.path.join(WORK, "tlc_%s_%d" % (tag, i)), workers=1, env_extra={"TRACE": pth}, timeout=timeout, heap=heap)
+        return pth, n, out
+
+    tuples, stats, total = [], {"generated": 0, "distinct": 0, "depth": 0}, 0
+    with concurrent.futures.ThreadPoolExecutor(max_workers=len(files)) as ex:
+        for pth, n, out in ex.map(one, enumerate(files)):
+            ts = tlc_tuples(out)
+            done = [t for t in ts if re.match(r'<<\s*"DONE"', t)]
+            if not done or tlc_failed(out):
+                raise ToolError("TLC did not consume %s:\n%s" % (pth, "\n".join(out.split("\n")[-30:])))
+            m = re.match(r'<<\s*"DONE",\s*(\d+)', done[-1])
+            if int(m.group(1)) != n:
+                raise ToolError("TLC consumed %s of %d events of %s" % (m.group(1), n, pth))
+            total += n
+            st = tlc_stats(out)
+            stats["generated"] += st["generated"]
+            stats["distinct"] += st["distinct"]
+            stats["depth"] = max(stats["depth"], st["depth"])
+            tuples += ts
+            os.remove(pth)
+    return tuples, stats, total
